@@ -561,6 +561,64 @@ def r5b_builtin_lookup_copies(ctx, sym):
                   "constructor already parameterised and reports an extra issue")
 
 
+def r5c_constructor_entries_are_copied(ctx, sym):
+    ctx.rule('R5c', "get_builtin_name executed abstractly on a table holding instances of pedal's own constructor "
+                    "types (list, dict, set, tuple, int, str - built by their real constructors): every look-up hands "
+                    "out an object that is not the table entry, so indexing it (list[int]) cannot parameterise the "
+                    "shared constructor for later analyses")
+    from .. import symexec, fdeval as _fdeval
+    from ..fdeval import Obj, Raised, Inconclusive
+    bmod = ctx.repo.module('pedal.types.builtin')
+    tmod = ctx.repo.module('pedal.types.new_types')
+    fn = bmod.func('get_builtin_name')
+
+    def class_of(o):
+        cd = o.attrs.get('__classdef__')
+        return sym.classes.get((cd._module.name, cd._qualname)) if cd is not None else None
+
+    def b_type(o):
+        return o.attrs['__classdef__'] if isinstance(o, Obj) and '__classdef__' in o.attrs else type(o)
+
+    def b_isinstance(o, t):
+        ts = t if isinstance(t, tuple) else (t,)
+        if isinstance(o, Obj) and '__classdef__' in o.attrs:
+            mro = list(sym.mro(class_of(o)))
+            return any(getattr(x, '_fd_class', None) is not None and
+                       any(getattr(k, 'node', None) is x._fd_class for k in mro) for x in ts)
+        return any(isinstance(x, type) and isinstance(o, x) for x in ts)
+
+    def build(expr):
+        f = ast.parse("def _expression():\n    return %s" % expr).body[0]
+        f._module, f._qualname = tmod, '_expression'
+        return symexec.new_fd(sym, tmod, calls={'isinstance': b_isinstance, 'type': b_type}).call_function(f, [])
+    n = 0
+    for name, expr in (('list', 'ListConstructor()'), ('dict', 'DictConstructor()'), ('set', 'SetConstructor()'),
+                       ('tuple', 'TupleConstructor()'), ('int', 'IntConstructor()'), ('str', 'StrConstructor()')):
+        try:
+            entry = build(expr)
+        except (Raised, Inconclusive):
+            continue        # a constructor type the interpreter cannot build: R5b (modelled entries) still applies
+        if not isinstance(entry, Obj):
+            continue
+        table = {name: entry}
+        fd = symexec.new_fd(sym, bmod, calls={'isinstance': b_isinstance, 'type': b_type},
+                            extra={'BUILTIN_NAMES': table})
+        try:
+            first = fd.call_function(fn, [name])
+            second = fd.call_function(fn, [name])
+        except (Raised, Inconclusive):
+            continue
+        n += 1
+        ok = isinstance(first, Obj) and first is not entry and second is not entry and first is not second and \
+            table[name] is entry
+        ctx.check(ok, 'R5c', 'get_builtin_name[%s]:real-constructor' % name, bmod, fn,
+                  "looking up %r hands out %s" % (name, 'the shared table entry itself' if first is entry or
+                                                  second is entry else 'the same copy twice' if first is second else
+                                                  repr(first)),
+                  "scores: list[int] in one submission; a bare list() in the next is typed as a list of integers")
+    ctx.floor('R5c', 'constructor entries decided with real instances', n, 3)
+
+
 def r6_issue_locations(ctx, sym):
     ctx.rule('R6', "sibling agreement over every TIFA issue class, each constructor executed abstractly: the location "
                    "the visitor hands in (self.locate(): the node's own line plus the section offset) is the "
@@ -618,6 +676,7 @@ def r6_issue_locations(ctx, sym):
 def run(ctx):
     sym = Symbols(ctx.repo)
     r5b_builtin_lookup_copies(ctx, sym)
+    r5c_constructor_entries_are_copied(ctx, sym)
     r6_issue_locations(ctx, sym)
     locate_positionless_rule(ctx, sym, 'R6')
     r1_never_raises(ctx, sym)
